@@ -2,7 +2,10 @@ package c16
 
 import (
 	"context"
+	"encoding/json"
 	"fmt"
+	"os"
+	"path/filepath"
 	"sync"
 	"sync/atomic"
 	"testing"
@@ -362,21 +365,22 @@ func (c *Case) stopAt() time.Duration {
 
 // outcome is everything observed about one run, judged outside the bubble.
 type outcome struct {
-	timedOut    bool // the virtual-time watchdog fired: Run / Scan had not returned
-	deadlock    string
-	returned    bool
-	err         error
-	returnedAt  time.Duration
-	stopIssued  bool
-	stopAt      time.Duration
-	aborts      []harness.Violation
-	late        int64 // callbacks that began after Run / Scan had returned
-	fake        *fakeLog
+	timedOut   bool // the virtual-time watchdog fired: Run / Scan had not returned
+	deadlock   string
+	raced      bool // the case's sub-test was failed by the testing package: the race detector reported
+	returned   bool
+	err        error
+	returnedAt time.Duration
+	stopIssued bool
+	stopAt     time.Duration
+	aborts     []harness.Violation
+	late       int64 // callbacks that began after Run / Scan had returned
+	fake       *fakeLog
 }
 
 // runCase executes one case in a bubble. mk builds the code under test around the scripted log and
 // returns the blocking call and (optionally) the graceful stop function.
-func runCase(t *testing.T, c *Case, log []truth, mk func(f *fakeLog, returned *atomic.Bool) (run func(ctx context.Context) error, stop func())) *outcome {
+func runCase(t *testing.T, prop string, c *Case, log []truth, mk func(f *fakeLog, returned *atomic.Bool) (run func(ctx context.Context) error, stop func())) *outcome {
 	o := &outcome{}
 	limit := c.bound() + 3*time.Hour
 	if c.StopKind != stopNever {
@@ -389,72 +393,100 @@ func runCase(t *testing.T, c *Case, log []truth, mk func(f *fakeLog, returned *a
 				o.deadlock = fmt.Sprint(r)
 			}
 		}()
-		res := vt.Run(t, limit, func(ctx context.Context) {
-			runCtx, cancel := context.WithCancel(ctx)
-			defer cancel()
-			var returned atomic.Bool
-			fake := newFakeLog(c, log, func(sig, msg string) {
-				amu.Lock()
-				o.aborts = append(o.aborts, harness.Violation{Sig: sig, Msg: msg})
-				amu.Unlock()
-				cancel()
-			})
-			o.fake = fake
-			run, stop := mk(fake, &returned)
-			done := make(chan struct{})
-			stopperDone := make(chan struct{})
-			go func() {
-				defer close(stopperDone)
-				if c.StopKind == stopNever {
-					return
-				}
-				tm := time.NewTimer(c.stopAt())
-				defer tm.Stop()
-				select {
-				case <-tm.C:
-				case <-done:
-					return
-				case <-ctx.Done():
-					return
-				}
-				amu.Lock()
-				o.stopIssued = true
-				o.stopAt = time.Since(fake.start)
-				amu.Unlock()
-				if c.StopKind == stopStop && stop != nil {
-					stop()
-				} else {
+		var res vt.Result
+		// One sub-test per case: the testing package checks the race detector's error count when a
+		// (sub-)test ends, so a data race inside the code under test is attributed to the case that
+		// provoked it (and stays attributable while rapid shrinks).
+		clean := t.Run("case", func(st *testing.T) {
+			res = vt.Run(st, limit, func(ctx context.Context) {
+				runCtx, cancel := context.WithCancel(ctx)
+				defer cancel()
+				var returned atomic.Bool
+				fake := newFakeLog(c, log, func(sig, msg string) {
+					amu.Lock()
+					o.aborts = append(o.aborts, harness.Violation{Sig: sig, Msg: msg})
+					amu.Unlock()
 					cancel()
-				}
-			}()
-			go func() {
-				err := run(runCtx)
-				returned.Store(true)
-				amu.Lock()
-				o.err = err
-				o.returned = true
-				o.returnedAt = time.Since(fake.start)
-				amu.Unlock()
-				close(done)
-			}()
-			select {
-			case <-done:
-			case <-ctx.Done():
-				// The watchdog fired and vt cancelled the context. A call that does not even return then
-				// can never be unwound (and a ticker inside the code under test would keep virtual time
-				// running for ever), so the only sound exit is a loud one: the case was persisted before
-				// the run (Crashy) and the driver turns the abort into a VIOLATION with that replay file.
-				grace := time.NewTimer(time.Hour)
+				})
+				o.fake = fake
+				run, stop := mk(fake, &returned)
+				done := make(chan struct{})
+				stopperDone := make(chan struct{})
+				go func() {
+					defer close(stopperDone)
+					if c.StopKind == stopNever {
+						return
+					}
+					tm := time.NewTimer(c.stopAt())
+					defer tm.Stop()
+					select {
+					case <-tm.C:
+					case <-done:
+						return
+					case <-ctx.Done():
+						return
+					}
+					amu.Lock()
+					o.stopIssued = true
+					o.stopAt = time.Since(fake.start)
+					amu.Unlock()
+					if c.StopKind == stopStop && stop != nil {
+						stop()
+					} else {
+						cancel()
+					}
+				}()
+				go func() {
+					err := run(runCtx)
+					returned.Store(true)
+					amu.Lock()
+					o.err = err
+					o.returned = true
+					o.returnedAt = time.Since(fake.start)
+					amu.Unlock()
+					close(done)
+				}()
 				select {
 				case <-done:
-					grace.Stop()
-				case <-grace.C:
-					panic(fmt.Sprintf("c16: hang-after-cancel: the call had not returned after %v of virtual time and still not one hour after its context was cancelled", limit))
+				case <-ctx.Done():
+					// The watchdog fired and vt cancelled the context. A call that does not even return then
+					// can never be unwound (and a ticker inside the code under test would keep virtual time
+					// running for ever), so the only sound exit is a loud one: the case was persisted before
+					// the run (Crashy) and the driver turns the abort into a VIOLATION with that replay file.
+					grace := time.NewTimer(time.Hour)
+					select {
+					case <-done:
+						grace.Stop()
+					case <-grace.C:
+						msg := fmt.Sprintf("c16: hang-after-cancel: the call had not returned after %v of virtual time and still not one hour after its context was cancelled", limit)
+						reportHang(prop, c, msg)
+						panic(msg)
+					}
 				}
-			}
-			<-stopperDone
+				<-stopperDone
+			})
 		})
 		o.timedOut = res.TimedOut
+		o.raced = !clean
 	}()
 	return o
+}
+
+// reportHang makes a run that cannot be unwound a first-class finding before the process dies: it writes
+// the case in the harness's replay format and prints the marker line the driver collects (during the
+// regress stage no case has been persisted by the harness yet).
+func reportHang(prop string, c *Case, msg string) {
+	dir := os.Getenv("VERIF_OUT")
+	if dir == "" {
+		dir = os.TempDir()
+	}
+	raw, _ := json.Marshal(c)
+	b, _ := json.MarshalIndent(map[string]any{
+		"property": "C16", "prop": prop, "seed": 0,
+		"violations": []harness.Violation{{Sig: "hang-after-cancel", Msg: msg}}, "case": json.RawMessage(raw),
+	}, "", " ")
+	path := filepath.Join(dir, "hang-"+prop+".json")
+	if os.WriteFile(path, b, 0o644) == nil {
+		fmt.Printf("\nVERIF-FAIL prop=%s file=%s\n", prop, path)
+	}
 }
